@@ -904,6 +904,11 @@ def _idempotent_renames(repo: Repo, rep: Report) -> None:
 
     fn = repo.func("emitters.endpoints_emitter:EndpointsEmitter._deduplicate_operation_ids_globally")
     assigns = [n for n in own_nodes(fn.node) if isinstance(n, ast.Assign) and isinstance(n.targets[0], ast.Attribute) and n.targets[0].attr == "operation_id"]
+    if not assigns:
+        from sa.flatten import flatten as _fl97
+
+        fn = _fl97(fn)  # the renaming was moved into a helper the method delegates to
+        assigns = [n for n in own_nodes(fn.node) if isinstance(n, ast.Assign) and isinstance(n.targets[0], ast.Attribute) and n.targets[0].attr == "operation_id"]
     rep.require(bool(assigns), "R9.7: _deduplicate_operation_ids_globally no longer renames operation ids (anchor)")
 
     class _R:
